@@ -70,6 +70,13 @@ def run_one(mod, scenario):
     except BaseException as e:  # noqa
         if isinstance(e, (KeyboardInterrupt, SystemExit)):
             raise
+        if type(e).__name__ == "StepCapExceeded":
+            # the simulated system never came to rest: events kept being produced without virtual time moving on (a spinning
+            # read loop, a retry without back-off ...). Ordinary runs stay orders of magnitude below the cap.
+            return {"violations": [{"clause": f"{mod.ID}.livelock", "detail": f"the simulated system did not reach quiescence within {e.args[0] if e.args else '?'} "
+                                    "loop steps: something keeps producing events without virtual time advancing", "facts": {"livelock": True}}],
+                    "digest": "livelock", "probes": {"step_cap_hit": 1}, "faults": {}, "steps": int(e.args[0]) if e.args else 0, "vtime": 0.0,
+                    "sig": "livelock", "nontrivial": True}
         return {"harness_error": "".join(traceback.format_exception(type(e), e, e.__traceback__))[-4000:],
                 "violations": [], "digest": "", "probes": {}, "faults": {}, "steps": 0, "vtime": 0.0,
                 "sig": "", "nontrivial": False}
@@ -288,6 +295,13 @@ def replay_file(mod, pid, path, quiet=False):
         print("HARNESS-ERROR during replay:\n" + res["harness_error"])
         return 2
     hit = [v for v in res["violations"] if v["clause"] == rep["clause"]]
+    findings = load_findings()
+    listed = [v for v in hit if match_finding(findings, pid, v)]
+    hit = [v for v in hit if not match_finding(findings, pid, v)]
+    if listed and not hit:
+        f = match_finding(findings, pid, listed[0])
+        print(f"KNOWN-FINDING: property={pid} {f['id']} {f['description']} (what this replay shows is that listed finding)")
+        return 0
     if hit:
         same = (res["digest"] == rep.get("digest"))
         if not quiet:
